@@ -2,8 +2,8 @@
 (* Closed system for exhaustive checking of Advertising.tla: the acceptor composed with an environment *)
 (* that offers every application call / radio callback over small finite parameter sets, and with a    *)
 (* radio that reports every transmission the acceptor allows.  Profile "c24": manual and automatic      *)
-(* start, all channel maps and map changes, intervals {20, 33, 100 ms, 10.24 s}, counts {1, 2} ("c24full": *)
-(* + 10.239 s, 19 ms (ignored), count 4), connect / disconnect.  Profile "c25": four advertising types (and directed only),  *)
+(* start, all channel maps and map changes, intervals {33, 100 ms, 10.24 s}, counts {1, 2} ("c24full": *)
+(* + 20 ms, 10.239 s, 19 ms (ignored), count 4), connect / disconnect.  Profile "c25": four advertising types (and directed only),  *)
 (* own address random / public, white list of 2 with 3 candidate addresses, both filters, a grid of     *)
 (* received PDUs (a well-formed CONNECT_IND per initiator and each single defect; profile "c25full":    *)
 (* CONNECT_IND x length field x size x InitA x AdvA x RxAdd, SCAN_REQ x ScanA x AdvA x RxAdd).           *)
@@ -21,7 +21,7 @@ McCfgs ==
     THEN {[auto |-> a, iv |-> 100000, own |-> OwnA, ownr |-> TRUE, wln |-> 0, types |-> <<0>>, varmap |-> TRUE, variv |-> TRUE] : a \in BOOLEAN}
     ELSE {[auto |-> TRUE, iv |-> 100000, own |-> OwnA, ownr |-> r, wln |-> 2, types |-> ty, varmap |-> FALSE, variv |-> FALSE] :
               r \in BOOLEAN, ty \in {<<0, 1, 6, 2>>, <<1>>}}
-McIvs    == IF Profile = "c24" THEN {20000, 33000, 10240000} ELSE IF Is24 THEN {20000, 33000, 10239000, 10240000, 19000} ELSE {}
+McIvs    == IF Profile = "c24" THEN {33000, 10240000} ELSE IF Is24 THEN {20000, 33000, 10239000, 10240000, 19000} ELSE {}
 McCounts == IF Profile = "c24" THEN {1, 2} ELSE IF Is24 THEN {1, 2, 4} ELSE {}
 McAddrs  == IF Is24 THEN {} ELSE {A(0), A(1), A(2)}
 
@@ -65,7 +65,7 @@ Types == {cfg.types[i] : i \in DOMAIN cfg.types}
 McDist(i) == {i, i + MaxDelay, RoundUp(i) + MaxDelay}
 TxStep == \E ch \in Chans, t \in {prop} \cup (IF lastAdv # <<>> THEN {AdvType} ELSE {}) :
               \/ AdvTx(ch, 0, FALSE, MkAdv(t), MkRsp(t))
-              \/ \E i \in ivs, d \in McDist(i) : AdvTx(ch, d - ev.span, FALSE, MkAdv(t), MkRsp(t))
+              \/ \E i \in ivs : \E d \in McDist(i) : AdvTx(ch, d - ev.span, FALSE, MkAdv(t), MkRsp(t))
 
 \* the distance rule is sharp (evaluated by TLC when the model is loaded): nothing below the configured interval, nothing
 \* above the rounded up interval + 10 ms
